@@ -105,6 +105,28 @@ def lock2_obsoleting(cfg):
     return r
 
 
+def _is_olc_sig(sig):
+    return 'olc' in sig or ('in_critical_section' in sig and 'in_fake_critical_section' not in sig) or 'optimistic_lock' in sig
+
+
+def olc_side(rule, what='the olc_db instantiation'):
+    """a sequential-correctness rule reported under a concurrency property: only its findings in the OLC instantiation of
+    the code (olc_db, olc_* node classes, templates instantiated with the real critical-section policy) - a concurrent index
+    that is wrong even single-threaded is not linearizable either; findings in the db instantiation are C01 / C02's business"""
+    def run(cfg, rule=rule):
+        r = rule['fn'](cfg)
+        kept = [x for x in r.findings if _is_olc_sig(x.fn_sig)]
+        if len(kept) != len(r.findings):
+            r.note('%d finding(s) of %s in the unsynchronised instantiation are not reported under this property' % (len(r.findings) - len(kept), r.rule))
+        r.findings = kept
+        return r
+    return R(run)
+
+
+SEQ_POINT = [R(point.noeff1), R(point.keyeq1), R(find.find1), R(find.ord1), R(slot.slot1), R(point.pair1), R(point.copy1), R(lambda cfg: point.desc1(cfg, which='point')), R(prefix.pfx1), R(prefix.pfx2)]
+SEQ_SCAN = [R(seq.cmp3), R(enc.cmp_shape), R(enum1.enum1), R(iterrules.iter2), R(lambda cfg: point.desc1(cfg, which='seek')), R(iterrules.vis1)]
+
+
 def _olc_point_roots(m):
     s = m.get('sig', '')
     return s.startswith('unodb::olc_db<') and '::iterator' not in s and any(('::%s(' % n) in s for n in ('get_internal', 'insert_internal', 'remove_internal', 'try_get', 'try_insert', 'try_remove', 'get', 'insert', 'remove'))
@@ -140,14 +162,14 @@ PROPERTIES['C01'] = {
 PROPERTIES['C02'] = {
     'level': 'other',
     'configs': two,
-    'rules': [R(seq.cmp1), R(enc.cmp_shape), R(seq.cmp3), R(seq.iter1), R(enum1.enum1), R(iterrules.iter2), R(iterrules.iter3), R(iterrules.iter4), R(iterrules.iter5), R(lambda cfg: point.desc1(cfg, which='seek')), advisory(R(iterrules.sib1))],
+    'rules': [R(seq.cmp1), R(enc.cmp_shape), R(seq.cmp3), R(seq.iter1), R(enum1.enum1), R(iterrules.iter2), R(iterrules.iter3), R(iterrules.iter4), R(iterrules.iter5), R(lambda cfg: point.desc1(cfg, which='seek')), R(iterrules.vis1), advisory(R(iterrules.sib1))],
     'technique': 'static analysis: forward dataflow over event-CFGs (comparator operands, sibling-step consistency), scan-descriptor extraction per node-class enumeration method compared with a semantics table, must-pass-through rule for the fall-off branch of seek, path-class differencing of the db and olc_db iterators',
     'explanation': 'Static necessary conditions of "scans visit exactly the interval, in order", decided on the clang-instantiated code of db, mutex_db and olc_db for both key kinds: '
                    'CMP-1 every byte comparator is applied to key bytes, never to the object representation of a pointer-carrying object; CMP-2 detail::compare is memcmp over the common length, then shorter-first on a tie (evaluated for all sign / length cases); CMP-3 every three-way key comparison (art_key / leaf / iterator cmp) takes its result from the byte-wise comparator or another cmp, never from relational operators on the byte-swapped key word; '
                    'ITER-1 when an iterator function computes a sibling with next/prior/gte_key_byte/lte_key_byte and the answer holds a value, the child it descends into is the one the answer names; '
                    'ENUM-1 each of the 96 per-node enumeration methods (begin/last/next/prior/gte_key_byte/lte_key_byte x 4 node classes x instantiations) is summarised by a scan descriptor (start, direction, bound, predicate, returned slot) and compared with the ART semantics table; '
                    'ITER-2 the scan drivers position with first / seek(fwd) resp. last / seek(rev), step with next resp. prior, stop at cmp(to) < 0 resp. > 0 (from inclusive, to exclusive), call the visitor once per entry and halt when it asks; '
-                   'ITER-3 when seek falls off an inner node (no child at/after resp. at/before the key byte) the first stack operation is the sibling step on the parent entry, never a pop; ITER-4 direction table: forward functions use forward primitives only and vice versa, and in seek every primitive sits under the direction flag and comparison sign the table demands (an opposite-direction descent is followed by a step in the seek direction); ITER-5 net stack effect of the step functions (replace the parent entry before a descent, remove exactly one entry otherwise); DESC-1 (seek) the descent of seek consumes the key consistently; SIB-1 (ADVISORY only, evidence notes, never the verdict) the db and olc_db iterators make the same algorithmic decisions once lock events are projected away.',
+                   'ITER-3 when seek falls off an inner node (no child at/after resp. at/before the key byte) the first stack operation is the sibling step on the parent entry, never a pop; ITER-4 direction table: forward functions use forward primitives only and vice versa, and in seek every primitive sits under the direction flag and comparison sign the table demands (an opposite-direction descent is followed by a step in the seek direction); ITER-5 net stack effect of the step functions (replace the parent entry before a descent, remove exactly one entry otherwise); DESC-1 (seek) the descent of seek consumes the key consistently; VIS-1 the visitor is shown the key / value of the leaf on top of the iterator stack; SIB-1 (ADVISORY only, evidence notes, never the verdict) the db and olc_db iterators make the same algorithmic decisions once lock events are projected away.',
     'decides': 'address independence of comparisons; sibling-step consistency; per-node ordered enumeration; bound handling of the scan drivers; seek fall-off; db/olc agreement',
     'does_not_decide': 'completeness of seek\'s case analysis for every tree shape and bound as a theorem; delivered key lists as values',
 }
@@ -181,13 +203,14 @@ PROPERTIES['C03'] = {
     'level': 'other',
     'configs': two,
     'rules': [scoped(olc('LOCK-1'), _olc_point_roots, POINT), scoped(olc('LOCK-2'), _olc_point_roots, POINT), scoped(olc('LOCK-3'), _olc_point_roots, POINT), scoped(olc('LOCK-5'), _olc_point_roots, POINT),
-              scoped(olc('LOCK-9'), _olc_point_roots, POINT), scoped(olc('ROLE'), _olc_point_roots, POINT), scoped(R(point.lock11), _olc_point_roots, POINT)],
+              scoped(olc('LOCK-9'), _olc_point_roots, POINT), scoped(olc('ROLE'), _olc_point_roots, POINT), scoped(R(point.lock11), _olc_point_roots, POINT),
+              R(lockword.lw)] + [olc_side(r_) for r_ in SEQ_POINT],
     'technique': 'static analysis: relational path-sensitive typestate dataflow (bounded sets of worlds of must/may atoms) over event-CFGs with per-return callee summaries and index-sensitive write-effect summaries',
     'explanation': 'Protocol conformance of the optimistic-lock-coupling code, decided by a relational, path-sensitive dataflow (bounded sets of worlds of must/may atoms over the variables of each function, '
                    'per-return summaries through the dispatcher/shim forwarders, effect summaries for protected-field writes) over every OLC function that owns or receives read sections or write guards, both key kinds: '
                    'LOCK-1 no node pointer read under a read section is dereferenced, and no non-restart result returned, before that section is re-validated; '
                    'LOCK-2 every store to a protected field (direct or through callees, index-sensitive for children) happens under an active write guard on the written node, or the node is fresh / obsoleted by this operation; '
-                   'LOCK-3 guards are taken root-to-leaf and nothing waits while a guard is held; LOCK-5 nodes are obsoleted before they are retired; LOCK-9 lock coupling: the section on a child is opened while the section it was reached under is still open; ROLE helper call sites pass matching section/node pairs; LOCK-11 on the failing side of every lock-step test (must_restart / check / try_read_unlock) only the restart result is returned, never a definitive answer. Verdicts are scoped to the callee closure of olc_db get / insert / remove (the iterator is C09). '
+                   'LOCK-3 guards are taken root-to-leaf and nothing waits while a guard is held; LOCK-5 nodes are obsoleted before they are retired; LOCK-9 lock coupling: the section on a child is opened while the section it was reached under is still open; ROLE helper call sites pass matching section/node pairs; LOCK-11 on the failing side of every lock-step test (must_restart / check / try_read_unlock) only the restart result is returned, never a definitive answer. Verdicts are scoped to the callee closure of olc_db get / insert / remove (the iterator is C09). The property also rests on the lock itself and on the sequential algorithm as instantiated for olc_db, so the lock-word premises LW-1..5 (C07) and the OLC-side findings of the sequential rules NOEFF-1, KEYEQ-1, FIND-1, ORD-1, SLOT-1, PAIR-1, COPY-1, DESC-1, PFX-1/2 (C01) are reported here too. '
                    'Each rule is a necessary condition of linearizability: its breach yields a concrete torn read / lost update under some schedule.',
     'decides': 'OLC protocol conformance (LOCK-1,2,3,5,9,11, ROLE) on every CFG path of every instantiation of the point operations and their helpers',
     'does_not_decide': 'linearizability of histories as such; value-level correctness of the tree algorithms',
@@ -196,11 +219,12 @@ PROPERTIES['C04'] = {
     'level': 'other',
     'configs': two,
     'rules': [olc('LOCK-1'), olc('LOCK-5'), R(olcrules.lock6),
-              R(qsbr.q_free_paths), R(qsbr.q_rotation), R(qsbr.q_barriers), R(lambda cfg: qsbr.q_orphans(cfg, parts=('7', '9'))), R(qsbr.q_tagging), R(qsbr.q_last_out), R(qsbr.q_register_epoch)],
+              R(qsbr.q_free_paths), R(qsbr.q_rotation), R(qsbr.q_barriers), R(lambda cfg: qsbr.q_orphans(cfg, parts=('7', '9'))), R(qsbr.q_tagging), R(qsbr.q_last_out), R(qsbr.q_register_epoch),
+              R(lambda cfg: qsbr.q_rotation(cfg, parts=('3',))), R(qsbr.q_cas), R(lambda cfg: qsbr.q_orphans(cfg, parts=('8',))), R(qsbr.q_tail_link), R(ptr.ptr3), R(point.lock11)],
     'technique': 'static analysis: relational typestate dataflow (validate-before-dereference, obsolete-before-retire), who-may-construct rule for immediate-deleter owners; the QSBR who-may-free / ordering / control-dependence rules of C05',
     'explanation': 'Structural safety conditions of "no use of reclaimed memory": LOCK-1 (no pointer obtained from a node is followed before the read section on that node is re-validated, so a stale pointer to a retired node is never dereferenced) '
                    'and LOCK-5 (every node an OLC operation hands to reclamation was unlocked-and-obsoleted by it first, so readers still holding a section on it restart; checked at restart returns too - a node retired and then abandoned by a restart is still linked), on every path of every OLC function, both key kinds; '
-                   'LOCK-6 (in the OLC instantiation an existing node is never wrapped in an owner with the immediate deleter outside the single-threaded teardown: ever-reachable nodes are freed only through QSBR). The second half of the property - what was retired is not freed before every reader that might hold it has quiesced - rests on the QSBR safety generators, which are therefore checked here too: Q-1,2,3,4,5,7,9,10,11,12,14 (see C05).',
+                   'LOCK-6 (in the OLC instantiation an existing node is never wrapped in an owner with the immediate deleter outside the single-threaded teardown: ever-reachable nodes are freed only through QSBR). The second half of the property - what was retired is not freed before every reader that might hold it has quiesced - rests on the QSBR safety generators, which are therefore checked here too: Q-1,2,3,4,5,7,9,10,11,12,14 (see C05); and the last clause - every unlinked node is freed exactly once - on the linearity rules of C06 (Q-3, Q-6, Q-8, Q-13). PTR-3 the span handed out by get() reproduces the data / size of the value view; LOCK-11 no definitive result after a failed lock step.',
     'decides': 'validate-before-dereference; obsolete-before-retire; deferred free only; the local generators of the two-epoch delay of QSBR',
     'does_not_decide': 'the global epoch invariant of QSBR under all interleavings (as C05); eventual reclamation as liveness',
 }
@@ -208,21 +232,22 @@ PROPERTIES['C09'] = {
     'level': 'other',
     'configs': two,
     'rules': [scoped(olc('LOCK-1'), _olc_scan_roots, SCAN), scoped(olc('LOCK-7'), _olc_scan_roots, SCAN), scoped(olc('LOCK-8'), _olc_scan_roots, SCAN), scoped(olc('LOCK-9'), _olc_scan_roots, SCAN), scoped(olc('ROLE'), _olc_scan_roots, SCAN),
-              scoped(R(seq.iter1), _olc_scan_roots, SCAN), scoped(R(iterrules.reseek), _olc_scan_roots, SCAN), scoped(R(iterrules.iter3), _olc_scan_roots, SCAN), scoped(R(iterrules.iter4), _olc_scan_roots, SCAN), scoped(R(iterrules.iter5), _olc_scan_roots, SCAN), scoped(R(point.lock11), _olc_scan_roots, SCAN)],
+              scoped(R(seq.iter1), _olc_scan_roots, SCAN), scoped(R(iterrules.reseek), _olc_scan_roots, SCAN), scoped(R(iterrules.iter3), _olc_scan_roots, SCAN), scoped(R(iterrules.iter4), _olc_scan_roots, SCAN), scoped(R(iterrules.iter5), _olc_scan_roots, SCAN), scoped(R(point.lock11), _olc_scan_roots, SCAN),
+              R(lockword.lw)] + [olc_side(r_) for r_ in SEQ_SCAN],
     'technique': 'static analysis: relational typestate dataflow over the OLC iterator functions (section validation, stack-entry/version pairing, lock coupling), must-pass-through rules for the re-seek path and the fall-off branch of seek',
     'explanation': 'Structural conditions of concurrent-scan correctness on the OLC iterator functions: LOCK-1 (snapshots validated before use / before a non-restart return), LOCK-7b (no validation on an ended, empty or moved-from section), '
                    'LOCK-8 (every stack entry is pushed with the version of the read section opened on the node it describes, so a later rehydrate/check validates the right lock word), LOCK-9 (hand-over-hand: the child section is opened before the parent section is given up), ROLE (the traversals receive the section their node argument was read under), ITER-1 (the sibling computed is the sibling visited, also on the re-seek path), '
-                   'RESEEK-1 (when a step finds its stack invalidated it re-seeks to the key it stood on, captured before anything is unwound, in the direction of the step, and steps past it exactly when the re-seek found that key again), ITER-3 (when seek falls off an inner node the first stack operation is the sibling step on the parent entry, never a pop), ITER-4 / ITER-5 (direction table and net stack effect of the OLC iterator functions), LOCK-11 (a failed lock step or a failed push leads to the restart result only). Verdicts are scoped to the callee closure of the olc_db iterator and scan functions (the sequential iterator is C02).',
+                   'RESEEK-1 (when a step finds its stack invalidated it re-seeks to the key it stood on, captured before anything is unwound, in the direction of the step, and steps past it exactly when the re-seek found that key again), ITER-3 (when seek falls off an inner node the first stack operation is the sibling step on the parent entry, never a pop), ITER-4 / ITER-5 (direction table and net stack effect of the OLC iterator functions), LOCK-11 (a failed lock step or a failed push leads to the restart result only). Verdicts are scoped to the callee closure of the olc_db iterator and scan functions (the sequential iterator is C02); the lock-word premises LW-1..5 and the OLC-side findings of CMP-2/3, ENUM-1, ITER-2, DESC-1 (seek) are reported here too.',
     'decides': 'snapshot validation, stack-entry/version pairing and sibling-step consistency in try_first/last/next/prior/seek and the traversals',
     'does_not_decide': 'ordering / completeness of delivered keys under interleavings',
 }
 PROPERTIES['C14'] = {
     'level': 'other',
     'configs': two,
-    'rules': [olc('LOCK-3'), olc('LOCK-4'), olc('LOCK-7'), R(point.lock10), R(lock2_obsoleting)],
+    'rules': [olc('LOCK-3'), olc('LOCK-4'), olc('LOCK-7'), R(point.lock10), R(lock2_obsoleting), R(lockword.lw)],
     'technique': 'static analysis: relational typestate dataflow for lock order / no-wait-while-locked / guard typestate on every CFG path incl. exceptional exits of scope guards; path-sensitive effect flow (obsoletion followed by a restart result)',
     'explanation': 'No-deadlock / no-lock-left-held conditions: LOCK-3 (write ownership is only taken by non-blocking upgrade in root-to-leaf order and no waiting primitive - try_read_lock spin, spin_wait_loop_body - is reached while a guard is active, '
-                   'so no wait-for cycle can contain a writer and readers hold nothing), LOCK-4 (no operation on a guard that is not active: no double unlock / null dereference; guards are scope-bound RAII objects), LOCK-7b (sections are not validated after they ended), LOCK-10 (obsoletion is a point of no return: no path marks a node obsolete and then abandons the attempt with a restart result while the node is still linked - otherwise every later operation reaching that node restarts for ever although nobody holds a lock; path-sensitive effect flow with callee summaries), LOCK-2 restricted to functions that obsolete a node (the store that replaces / unlinks the obsoleted node in its parent is made under the active write guard of the parent: a store after the guard is gone can hit a slot that has moved, and the obsolete node stays linked).',
+                   'so no wait-for cycle can contain a writer and readers hold nothing), LOCK-4 (no operation on a guard that is not active: no double unlock / null dereference; guards are scope-bound RAII objects), LOCK-7b (sections are not validated after they ended), LOCK-10 (obsoletion is a point of no return: no path marks a node obsolete and then abandons the attempt with a restart result while the node is still linked - otherwise every later operation reaching that node restarts for ever although nobody holds a lock; path-sensitive effect flow with callee summaries), LOCK-2 restricted to functions that obsolete a node (the store that replaces / unlinks the obsoleted node in its parent is made under the active write guard of the parent: a store after the guard is gone can hit a slot that has moved, and the obsolete node stays linked); the lock-word premises LW-1..5 of C07 (write ownership only through write_guard and released by it, the try_read_lock wait loop leaves on an obsolete word, ...) are reported here too: the anchors of this property include the lock.',
     'decides': 'lock acquisition order, no-wait-while-locked, guard typestate, no restart after obsoletion',
     'does_not_decide': 'freedom from starvation / livelock (the lock header itself says readers can starve)',
 }
@@ -294,7 +319,7 @@ def stats_axis(tier):
 PROPERTIES['C05'] = {
     'level': 'other',
     'configs': stats_axis,
-    'rules': [R(qsbr.q_free_paths), R(qsbr.q_rotation), R(qsbr.q_barriers), R(lambda cfg: qsbr.q_orphans(cfg, parts=('7', '9'))), R(qsbr.q_tagging), R(qsbr.q_last_out), R(qsbr.q_register_epoch)],
+    'rules': [R(qsbr.q_free_paths), R(qsbr.q_rotation), R(qsbr.q_barriers), R(lambda cfg: qsbr.q_orphans(cfg, parts=('7', '9'))), R(qsbr.q_tagging), R(qsbr.q_last_out), R(qsbr.q_register_epoch), R(qsbr.q_cas)],
     'technique': 'static analysis: call-graph who-may-call rules for the free sink, ordering/dominance and control-dependence rules on the rotation, path-sensitive boolean dataflow for barriers and once-only orphan handling, memory-order table',
     'explanation': 'Structural safety conditions of "QSBR never frees what a registered thread may still reference", each decided on every CFG path of qsbr.hpp/qsbr.cpp (stats on/off, debug/release): '
                    'Q-1 requests reach qsbr::deallocate only through ~deferred_requests, or at once only under single-thread mode; Q-2 only the previous-interval list (and, under single-thread mode, the current one; orphans likewise) is handed to the free sink; '
